@@ -1339,3 +1339,72 @@ MUTANTS += [
          edits=[(MRL, '        loop {\n            let file_number = record_reader.read().current_file().clone();\n', '        let mut file_number = record_reader.read().current_file().clone();\n        loop {\n'),
                 (MRL, '            } else {\n                break;\n            }\n        }\n        // io errors are non-recoverable\n', '            } else {\n                break;\n            }\n            file_number = record_reader.read().current_file().clone();\n        }\n        drop(file_number);\n        // io errors are non-recoverable\n')]),
 ]
+
+# ---- mutants / refactors for the rules and clauses added after the seventh seeded round
+MUTANTS += [
+    dict(name='wrap_window_right_half_unshifted', props=['C01', 'C08'], rules=['RB1'], desc='get_range, wrap-around case: the second piece is cut at `end`, not at `end - len(first half)`',
+         edits=[(RB, '            let end = end - left_part_of_queue.len();\n            res.extend_from_slice(&right_part_of_queue[..end]);', '            res.extend_from_slice(&right_part_of_queue[..end.min(right_part_of_queue.len())]);')]),
+    dict(name='second_half_window_start_unshifted', props=['C01', 'C08'], rules=['RB1'], desc='get_range, second-half case: only the end is shifted by the length of the first half',
+         edits=[(RB, '            let start = start - left_part_of_queue.len();\n            let end = end - left_part_of_queue.len();\n\n            Cow::Borrowed(&right_part_of_queue[start..end])',
+                 '            let end = end - left_part_of_queue.len();\n\n            Cow::Borrowed(&right_part_of_queue[start.min(end)..end])')]),
+    dict(name='replay_truncate_guarded_by_position', props=['C01', 'C04', 'C09'], rules=['RP5'], desc='replay applies a Truncate entry only when it is ahead of the queue start',
+         edits=[(MRL, '                        in_mem_queues.truncate(queue, truncate_range);', '                        if in_mem_queues.next_position(queue).map_or(true, |next| truncate_range.end < next) {\n                            in_mem_queues.truncate(queue, truncate_range);\n                        }')]),
+    dict(name='evict_all_restarts_at_point', props=['C04'], rules=['PAST4'], desc='evict-all path: start_position = truncate_up_to_pos (the truncated-to position is handed out again)',
+         edits=[(Q, '            self.start_position = truncate_up_to_pos + 1;\n            self.concatenated_records.clear();', '            self.start_position = truncate_up_to_pos.max(self.next_position());\n            self.concatenated_records.clear();')]),
+    dict(name='rebuilt_queue_off_by_one', props=['C01', 'C04'], rules=['MQ3'], desc='with_next_position starts the queue one position late',
+         edits=[(Q, '            start_position: next_position,\n            record_metas: Vec::new(),', '            start_position: next_position + 1,\n            record_metas: Vec::new(),')]),
+    dict(name='end_of_log_inside_entry_is_corruption', props=['C10', 'C07', 'C11'], rules=['REC8'], desc='NotAvailable inside an entry is answered Corruption (sticky: replay spins)',
+         edits=[(RRD, '                Err(ReadFrameError::NotAvailable) => {\n                    return Ok(false);', '                Err(ReadFrameError::NotAvailable) => {\n                    if self.within_record {\n                        return Err(ReadRecordError::Corruption);\n                    }\n                    return Ok(false);')]),
+    dict(name='fresh_tracker_file_by_exists', props=['C17', 'C02'], rules=['FS8'], desc='file 0 of a fresh tracker is created only if the path does not exist()',
+         edits=[(DIR, '            let file_number = files.first();\n            create_file(dir_path, file_number)?;', '            let file_number = files.first();\n            if !filepath(dir_path, file_number).exists() {\n                create_file(dir_path, file_number)?;\n            }')]),
+    dict(name='file_full_test_subtracts_offset', props=['C10'], rules=['ROLL5'], desc='roll-over test written `len > FILE_NUM_BYTES - offset` (underflows on an over-long file)',
+         edits=[(DIR, '        if self.offset + buf.len() > FILE_NUM_BYTES {', '        if buf.len() > FILE_NUM_BYTES - self.offset {')]),
+    dict(name='writer_resumes_past_cursor', props=['C01', 'C02', 'C07'], rules=['LOG5'], desc='into_writer forwards to the next multiple of 8 after the cursor',
+         edits=[(FRD, '        rolling_writer.forward(self.cursor)?;', '        rolling_writer.forward((self.cursor + 7) / 8 * 8)?;')]),
+    dict(name='offset_zero_fast_path_keeps_metas', props=['C16'], rules=['MA5'], desc='partial truncation returns early when the first retained record starts at offset 0, metas not drained',
+         edits=[(Q, '        self.record_metas.drain(..first_record_to_keep);', '        if start_offset_to_keep == 0 {\n            self.start_position = truncate_up_to_pos + 1;\n            return 0;\n        }\n        self.record_metas.drain(..first_record_to_keep);')]),
+    dict(name='middle_frame_wiped_after_append', props=['C07', 'C09', 'C12'], rules=['REC7'], desc='the record buffer is cleared after appending a non-last frame of an open entry when the frame is a Middle one',
+         edits=[(RRD, '                    if self.within_record {\n                        self.record_buffer.extend_from_slice(frame_payload);', '                    if self.within_record {\n                        self.record_buffer.extend_from_slice(frame_payload);\n                        if !frame_type.is_first_frame_of_record() && !frame_type.is_last_frame_of_record() && frame_payload.len() > 32_000 {\n                            self.record_buffer.clear();\n                        }')]),
+]
+
+REFACTORS += [
+    dict(name='wrap_window_by_iterator', desc='get_range wrap-around case through iter().skip(start).take(end - start)',
+         edits=[(RB, '''            let mut res = Vec::with_capacity(end - start);
+            res.extend_from_slice(&left_part_of_queue[start..]);
+            let end = end - left_part_of_queue.len();
+            res.extend_from_slice(&right_part_of_queue[..end]);
+''', '''            let res: Vec<u8> = self.buffer.iter().skip(start).take(end - start).copied().collect();
+''')]),
+    dict(name='wrap_window_split_point_named', desc='get_range: the length of the first half read once into a local, pieces cut with it',
+         edits=[(RB, '''            let mut res = Vec::with_capacity(end - start);
+            res.extend_from_slice(&left_part_of_queue[start..]);
+            let end = end - left_part_of_queue.len();
+            res.extend_from_slice(&right_part_of_queue[..end]);
+''', '''            let split = left_part_of_queue.len();
+            let mut res = Vec::with_capacity(end - start);
+            res.extend_from_slice(&left_part_of_queue[start..split]);
+            res.extend_from_slice(&right_part_of_queue[..end - split]);
+''')]),
+    dict(name='replay_delete_only_known_queue', desc='replay: DeleteQueue applied under contains_queue (the skipped case was a no-op)',
+         edits=[(MRL, '                        let _ = in_mem_queues.delete_queue(queue);', '                        if in_mem_queues.contains_queue(queue) {\n                            let _ = in_mem_queues.delete_queue(queue);\n                        }')]),
+    dict(name='new_start_named_once', desc='truncate_head: truncate_up_to_pos + 1 computed once into a local',
+         edits=[(Q, '        if truncate_up_to_pos + 1 >= self.next_position() {\n            self.start_position = truncate_up_to_pos + 1;', '        let new_start = truncate_up_to_pos + 1;\n        if new_start >= self.next_position() {\n            self.start_position = new_start;')]),
+    dict(name='rebuilt_queue_via_default', desc='with_next_position: Default + field store',
+         edits=[(Q, '''        MemQueue {
+            concatenated_records: RollingBuffer::new(),
+            start_position: next_position,
+            record_metas: Vec::new(),
+        }
+    }
+
+    pub fn summary''', '''        let mut queue = MemQueue::default();
+        queue.start_position = next_position;
+        queue
+    }
+
+    pub fn summary''')]),
+    dict(name='end_of_log_drops_partial_entry', desc='NotAvailable: the partial entry is dropped (buffer cleared, flag reset) before answering Ok(false)',
+         edits=[(RRD, '                Err(ReadFrameError::NotAvailable) => {\n                    return Ok(false);', '                Err(ReadFrameError::NotAvailable) => {\n                    if self.within_record {\n                        self.within_record = false;\n                        self.record_buffer.clear();\n                    }\n                    return Ok(false);')]),
+    dict(name='into_writer_cursor_named', desc='into_writer: cursor read into a local before the reader is consumed',
+         edits=[(FRD, '        let mut rolling_writer: RollingWriter = self.reader.into_writer()?;\n        rolling_writer.forward(self.cursor)?;', '        let resume_at: usize = self.cursor;\n        let mut rolling_writer: RollingWriter = self.reader.into_writer()?;\n        rolling_writer.forward(resume_at)?;')]),
+]
